@@ -153,6 +153,25 @@ def deep_snapshot(obj, seen=None, depth=0):
     return ("obj", id(obj))
 
 
+def snapshots_agree(a, b, relax):
+    """deep_snapshot equality, relaxed by field names that may differ and by "lists-grow" (append-only lists)."""
+    if not relax:
+        return a == b
+    if isinstance(a, tuple) and isinstance(b, tuple) and a and b and a[0] == b[0]:
+        if a[0] == "list":
+            if a[1:3] != b[1:3]:
+                return False
+            xs, ys = a[3], b[3]
+            if len(ys) < len(xs) or ("lists-grow" not in relax and len(xs) != len(ys)):
+                return False
+            return all(snapshots_agree(x, y, relax) for x, y in zip(xs, ys))
+        if len(a) == 3 and isinstance(a[2], list) and a[2] and isinstance(a[2][0], tuple) and len(a[2][0]) == 2:
+            if a[1] != b[1] or len(a[2]) != len(b[2]):
+                return False
+            return all(fa == fb and (fa in relax or snapshots_agree(va, vb, relax)) for (fa, va), (fb, vb) in zip(a[2], b[2]))
+    return a == b
+
+
 def resolve_target(target: str):
     rel, qual = target.split("::")
     modname = rel[:-3].replace("/", ".")
@@ -294,7 +313,7 @@ def check_native(c: Contract, inputs: dict, fn=None) -> NativeOutcome:
         e2 = dict(env)
         for name, _p in pre:
             e2[name] = env[f"{name}@{id(code)}"]
-        e2["heap_unchanged"] = lambda: deep_snapshot(inputs) == snap0
+        e2["heap_unchanged"] = lambda *relax: snapshots_agree(snap0, deep_snapshot(inputs), set(relax))
         return eval(code, e2)
 
     try:
